@@ -325,12 +325,12 @@ func init() {
 								}
 							}
 							if !cd && a <= 1 {
-							cfgs = append(cfgs, c17Cfg{TLS: tlsm, Auth: a, Entry: e, NoNoop: true})
-							if e >= 1 && e != 3 && a == 0 {
-								cfgs = append(cfgs, c17Cfg{TLS: tlsm, Auth: a, Entry: e, NoNoop: true, Follow: 2}, c17Cfg{TLS: tlsm, Auth: a, Entry: e, NoNoop: true, WS: 200}, c17Cfg{TLS: tlsm, Auth: a, Entry: e, NoNoop: true, Msgs: 3})
+								cfgs = append(cfgs, c17Cfg{TLS: tlsm, Auth: a, Entry: e, NoNoop: true})
+								if e >= 1 && e != 3 && a == 0 {
+									cfgs = append(cfgs, c17Cfg{TLS: tlsm, Auth: a, Entry: e, NoNoop: true, Follow: 2}, c17Cfg{TLS: tlsm, Auth: a, Entry: e, NoNoop: true, WS: 200}, c17Cfg{TLS: tlsm, Auth: a, Entry: e, NoNoop: true, Msgs: 3})
+								}
 							}
-						}
-						if tlsm > 0 && e <= 1 && a == 0 {
+							if tlsm > 0 && e <= 1 && a == 0 {
 								cfgs = append(cfgs, c17Cfg{TLS: tlsm, Auth: a, Entry: e, HS: 1, CtxDL: cd})
 							}
 							if (e == 1 || e == 2) && a == 0 && !cd {
